@@ -1475,6 +1475,10 @@ class Engine(object):
     def call(self, fv, args, kwargs, st, node):
         from . import builtins_model
         if isinstance(fv, FuncV):
+            if fv.bound is None and not isinstance(fv.node, ast.Lambda):
+                ext = self.externals.get("def:" + fv.node.name)      # a repository function replaced by an assumed contract
+                if ext is not None:
+                    return ext(self, args, kwargs, st, node)
             return self.call_function(fv, args, kwargs, st, node)
         if isinstance(fv, (PyObj, BoundBuiltin, ClassRef)):
             return builtins_model.call_builtin(self, fv, args, kwargs, st, node)
@@ -2009,6 +2013,28 @@ class Engine(object):
             if not isinstance(base, ObjV):
                 raise EngineError("attribute assignment on %r" % type(base).__name__)
             return self.assign(target.value, base.with_field(self.mangle(target.attr), value), r[0][0], node)
+        if isinstance(target, ast.Subscript) and isinstance(target.slice, ast.Slice) and target.slice.step is None:
+            # seq[a:b] = value  (bytearray / list splice)
+            parts = [p for p in (target.value, target.slice.lower, target.slice.upper) if p is not None]
+            r = self.ev_list(parts, st)
+            if len(r) != 1 or isinstance(r[0][1], Raised):
+                raise EngineError("slice assignment through a forking expression")
+            s, vals = r[0]
+            it = iter(vals)
+            base = next(it)
+            lo = next(it) if target.slice.lower is not None else None
+            hi = next(it) if target.slice.upper is not None else None
+            if isinstance(base, ListV):
+                base = seqs.to_seq(base)
+            if not isinstance(base, SeqV) or not isinstance(value, (SeqV, ListV)):
+                raise EngineError("slice assignment on %s" % type(base).__name__)
+            val = seqs.to_seq(value, base.elem) if not isinstance(value, SeqV) else value
+            a = self.norm_slice_bound(lo, base.length, 0)
+            b = self.norm_slice_bound(hi, base.length, base.length)
+            ar = Arith(lambda *x: None)
+            b = ite(ar.compare('<', b, a), a, b)
+            new = seqs.seq_splice(base, a, b, val)
+            return self.assign(target.value, new, s, node)
         if isinstance(target, ast.Subscript):
             r = self.ev_list([target.value, target.slice], st) if not isinstance(target.slice, ast.Slice) else None
             if r is None or len(r) != 1 or isinstance(r[0][1], Raised):
@@ -2478,7 +2504,36 @@ class Engine(object):
         return False
 
     def st_With(self, node, st):
-        raise EngineError("with statement (line %d)" % node.lineno)
+        """with <expr> [as name]: body -- __enter__ / __exit__ of the (modelled or external) object;
+        __exit__ is run on every exit of the body and its result is ignored (no exception swallowing)"""
+        if len(node.items) != 1:
+            raise EngineError("with statement with several items (line %d)" % node.lineno)
+        item = node.items[0]
+        out = []
+        for s, cm in self.ev(item.context_expr, st):
+            if isinstance(cm, Raised):
+                out.append(self._raise_out(s, cm))
+                continue
+            if not isinstance(cm, ObjV):
+                raise EngineError("with statement over %s (line %d)" % (type(cm).__name__, node.lineno))
+            s = s.set("__with%d" % node.lineno, cm)
+            for s1, fn in self.getattr(s, node, cm, "__enter__"):
+                for s2, entered in self.call(fn, [], {}, s1, None):
+                    if isinstance(entered, Raised):
+                        out.append(self._raise_out(s2, entered))
+                        continue
+                    if item.optional_vars is not None:
+                        s2 = self.assign(item.optional_vars, entered, s2, node)
+                    for kind, s3, v in self.exec_block(node.body, s2):
+                        cm2 = s3.env.get("__with%d" % node.lineno, cm)
+                        nargs = [NONE, NONE, NONE] if kind != "raise" else [StrV(), v, StrV()]
+                        for s4, fx in self.getattr(s3, node, cm2, "__exit__"):
+                            for s5, r5 in self.call(fx, nargs, {}, s4, None):
+                                if isinstance(r5, Raised):
+                                    out.append(self._raise_out(s5, r5))
+                                else:
+                                    out.append((kind, s5, v))
+        return out
 
 
 class UnpackError(Exception):
